@@ -174,7 +174,7 @@ def run(ctx):
     except ImportError:
         x_share = 0.0
         ctx.notes['x_part'] = 'G-X generator not available in this build of the framework'
-    failures = hyp.fan_out(ctx, 'pylib.props.c17', 'gen_case', 600 if quick else 15000, extra={'tier': ctx.tier, 'x_share': x_share})
+    failures = hyp.fan_out(ctx, 'pylib.props.c17', 'gen_case', 1200 if quick else 20000, extra={'tier': ctx.tier, 'x_share': x_share})
     seen = set()
     for f in failures:
         k = f['why'].split(' ')[0]
